@@ -349,12 +349,19 @@ type planGen struct {
 }
 
 var (
-	basePool = []string{"http://b.example/d/doc", "http://b.example/d/e/f.rdf", "http://other.example/", "http://b.example/d/doc?q=1", "http://b.example/a/b/c/d", "http://b.example/d/doc#top"}
-	relBases = []string{"sub/", "../up/doc", "x", "./", "/rooted/base", "//auth.example/p/q", "e/f/g?x=y", "../../"}
+	basePool = []string{"http://b.example/d/doc", "http://b.example/d/e/f.rdf", "http://other.example/", "http://b.example/d/doc?q=1", "http://b.example/a/b/c/d", "http://b.example/d/doc#top",
+		// boundary shapes of a base (default base and absolute xml:base): authority with EMPTY path (RFC 3986 5.2.3 merge), with
+		// query, empty query, empty fragment ('#' at the end: the private forceFragment flag of iri.ParsedIRI), both
+		"http://c.example", "http://c.example", "http://c.example?v=0", "http://c.example?", "http://c.example#", "http://b.example/d/doc?",
+		"http://b.example/d/doc#", "http://b.example/d/doc?q=1#", "http://b.example/d/doc?#"}
+	relBases = []string{"sub/", "../up/doc", "x", "./", "/rooted/base", "//auth.example/p/q", "e/f/g?x=y", "../../",
+		"//auth.example", "//auth.example?k", "?", "?x#", "#", "doc#", "", "//c.example#"}
 	absIRIs  = []string{"http://a.example/x", "http://b.example/d/e/f", "http://b.example/d/doc", "urn:x:y", "http://b.example/d/doc#frag", "mailto:a@b.example", "http://a.example/é/ü?k=v#f", "http://a.example/a%20b", "http://b.example/", "http://b.example/d/"}
 	relRefs  = []string{"name", "sub/name", "../up", "./here", "#frag", "", "?q=1", "/rooted", "//other.example/p", "../../x", "a/./b/../c", "#a", "x#y", "é", ".", "..", "a//b", "doc",
 		// a colon that belongs to the query or fragment, not to a scheme (RFC 3986 4.2 only restricts the first path segment)
-		"#sec:1", "?t=12:30", "item?ref=urn:x", "p/q:r", "./a:b", "#a:b/c"}
+		"#sec:1", "?t=12:30", "item?ref=urn:x", "p/q:r", "./a:b", "#a:b/c",
+		// empty-path references: same-document, empty fragment, empty query
+		"", "#", "?", "?#", "?v=1", "#f"}
 	nsPool     = []string{"http://e/", "http://example.org/ns#", "http://e/", "urn:p:", "http://e/sub/", "http://www.w3.org/2000/01/rdf-schema#", "http://é.example/ns/"}
 	localPool  = []string{"p", "q", "name", "é", "p-1", "_u", "a.b", "value", "P2", "li", "type", "Description", "x_y", "nodeID"}
 	rdfProps   = []string{"value", "first", "rest", "subject", "predicate", "object", "_1", "_2", "_3", "_10", "type", "Seq", "Bag", "Alt", "Statement", "Property", "List", "nil", "XMLLiteral", "foo"}
@@ -401,9 +408,28 @@ func (g *planGen) scope(env genEnv, pBase, pLang int) (Scope, genEnv) {
 		} else {
 			b = vh.Pick(g.r, relBases)
 		}
+		for tries := 0; ; tries++ {
+			nb := rfcResolve(env.base, b)
+			c := c12Avoid(env.base, b)
+			if c == "" {
+				c = c12AvoidBase(nb)
+			}
+			if c == "" {
+				break
+			}
+			g.f("c12-class-avoided:xml:base:" + c)
+			b = vh.Pick(g.r, basePool[:6])
+			if tries > 4 {
+				b = "http://b.example/d/doc" // absolute, no fragment: only avoided under a base ending in '#'
+				if c12Avoid(env.base, b) != "" {
+					b = "http://b.example/d/doc#top"
+				}
+			}
+		}
 		sc.Base = &b
 		env.base = rfcResolve(env.base, b)
 		g.f("xml:base")
+		g.baseShape(env.base)
 	}
 	if g.r.Chance(pLang) {
 		var l string
@@ -424,8 +450,57 @@ func (g *planGen) scope(env genEnv, pBase, pLang int) (Scope, genEnv) {
 	return sc, env
 }
 
-// ref draws a written reference and the IRI it denotes under env.
+// baseShape counts the boundary shapes of a base in scope
+func (g *planGen) baseShape(b string) {
+	p := rfcSplit(b)
+	if p.hasAuthority && p.path == "" {
+		g.f("base:authority-empty-path")
+	}
+	if p.hasQuery && p.query == "" {
+		g.f("base:empty-query")
+	}
+	if p.hasFragment && p.fragment == "" {
+		g.f("base:empty-fragment")
+	}
+}
+
+// ref draws a written reference and the IRI it denotes under env. A pair (base in scope, reference) inside a known
+// deviation class of property C12 is redrawn (c12classes.go); the last resort is a fragment-only reference, which
+// no class covers for the bases generated here (no dot segments in a base path).
 func (g *planGen) ref(env genEnv) (iri, ref string) {
+	for tries := 0; ; tries++ {
+		iri, ref = g.ref0(env)
+		c := c12Avoid(env.base, ref)
+		if c == "" {
+			break
+		}
+		g.f("c12-class-avoided:ref:" + c)
+		if tries > 6 {
+			ref = "#" + vh.Pick(g.r, idPool)
+			iri = rfcResolve(env.base, ref)
+			if c := c12Avoid(env.base, ref); c != "" {
+				g.f("c12-class-NOT-avoided:" + c)
+			}
+			break
+		}
+	}
+	if rp := rfcSplit(ref); !rp.hasScheme && !rp.hasAuthority && rp.path == "" {
+		g.f("ref:empty-path")
+		if bp := rfcSplit(env.base); bp.hasAuthority && bp.path == "" {
+			g.f("ref:empty-path-under-base-with-empty-path")
+		}
+		if ref == "" && strings.HasSuffix(env.base, "#") {
+			g.f("ref:same-document-under-base-with-empty-fragment")
+		}
+	}
+	g.iris = append(g.iris, iri)
+	if g.planted(1) {
+		iri += "X" // intended value disagrees with the written form: wf must reject
+	}
+	return
+}
+
+func (g *planGen) ref0(env genEnv) (iri, ref string) {
 	switch {
 	case len(g.iris) > 0 && g.r.Chance(35):
 		// an IRI already used, written absolutely or relatively when that works
@@ -451,10 +526,6 @@ func (g *planGen) ref(env genEnv) (iri, ref string) {
 		ref = vh.Pick(g.r, relRefs)
 		iri = rfcResolve(env.base, ref)
 		g.f("ref:relative")
-	}
-	g.iris = append(g.iris, iri)
-	if g.planted(1) {
-		iri += "X" // intended value disagrees with the written form: wf must reject
 	}
 	return
 }
@@ -496,6 +567,10 @@ func (g *planGen) id(env genEnv) *PId {
 		name := vh.Pick(g.r, idPool)
 		if g.r.Chance(20) {
 			name = fmt.Sprintf("%s%d", name, g.r.Intn(100))
+		}
+		if c := c12Avoid(env.base, "#"+name); c != "" {
+			g.f("c12-class-avoided:rdf:ID:" + c)
+			return nil
 		}
 		if !g.used[[2]string{env.base, name}] {
 			g.used[[2]string{env.base, name}] = true
@@ -665,6 +740,10 @@ func (g *planGen) prop(env genEnv, s string, li *int, depth int) *PProp {
 		if g.r.Chance(60) {
 			p.Ref = vh.Pick(g.r, dtPool)
 			p.DT = rfcResolve(env.base, p.Ref)
+			if c := c12Avoid(env.base, p.Ref); c != "" {
+				g.f("c12-class-avoided:rdf:datatype:" + c)
+				p.DT, p.Ref = g.ref(env)
+			}
 		} else {
 			p.DT, p.Ref = g.ref(env)
 		}
@@ -872,6 +951,10 @@ func (g *planGen) wideNode(env genEnv, mode string) *PNode {
 			n.Props = append(n.Props, p)
 		}
 		long := "http://a.example/" + strings.Repeat("seg/", g.count([]int{64, 1024, 1100}, 200)) + "x"
+		if c := c12Avoid(env.base, long); c != "" {
+			g.f("c12-class-avoided:long-ref:" + c)
+			long += "#f" // a reference with a fragment of its own is outside base-fragment-inherited
+		}
 		p := &PProp{Kind: "res", IRI: long, Ref: long}
 		p.Nm = g.pname(&li)
 		g.triples = append(g.triples, wTriple(s, p.Nm.P, wIRI(long)))
@@ -940,6 +1023,7 @@ func genPlan(r *vh.Rng, feat map[string]int) (*PDoc, string, []string, bool) {
 	g := &planGen{r: r, used: map[[2]string]bool{}, feat: feat, budget: 3 + r.Intn(12)}
 	base := vh.Pick(r, basePool)
 	env := genEnv{base: base}
+	g.baseShape(base)
 	d := &PDoc{}
 	d.Sc, env = g.scope(env, 15, 25)
 	k := 1 + r.Intn(3)
